@@ -180,6 +180,10 @@ class C19(Profile):
         if ps == 'legal':
             return base + [('count', IntegerProperty())], 'legal'
         if ps == 'legal2':
+            if op['a'] % 2:
+                # the same declarations in another order: an x_ name BETWEEN ordinary names (the order of a property list is the
+                # author's business; every declared property belongs to the class)
+                return base + [('x_note', StringProperty()), ('tags', ListProperty(StringProperty)), ('x_rank', IntegerProperty())], 'legal'
             return base + [('tags', ListProperty(StringProperty)), ('x_note', StringProperty())], 'legal'
         ref_name = REF_NAMES[op['a'] % len(REF_NAMES)]
         obs20 = kind == 'observable' and ver == '2.0'
